@@ -1710,7 +1710,7 @@ package spec
 //@   ensures  [C01,C19] oauth2-application @@ result != nil && nfKind(jv(data), "SecuritySchemeProps", "oauth2ApplicationSecurity") && requiredPresent(jv(data), "oauth2ApplicationSecurity") && ssType(jv(data)) == "oauth2" && ssFlow(jv(data)) == "application" ==> sameObject(jv(result), jv(data))
 //@   excluding oauth2-application @@ nfKindAll(jv(data), "SecuritySchemeProps", "oauth2ApplicationSecurity")
 //@   ensures  [C01,C19] oauth2-accessCode @@ result != nil && nfKind(jv(data), "SecuritySchemeProps", "oauth2AccessCodeSecurity") && requiredPresent(jv(data), "oauth2AccessCodeSecurity") && ssType(jv(data)) == "oauth2" && ssFlow(jv(data)) == "accessCode" ==> sameObject(jv(result), jv(data))
-//@   excluding oauth2-accessCode @@ nfKindAll(jv(data), "SecuritySchemeProps", "oauth2AccessCodeSecurity")
+//@   excluding oauth2-accessCode @@ decOf("string", oVal(jv(data), "tokenUrl")) != ""
 //@   ensures  [C06] no-duplicate-members @@ result != nil ==> (forall k string :: oCnt(jv(result), k) <= 1)
 
 // ---- Operation
